@@ -78,6 +78,14 @@ pub fn command_text(kind: &str, bst: i64, list: &Value, tag: &str, marks: &str, 
         "external" => format!("/bin/true {rs}"),
         "empty" => rs.to_string(),
         "exec" => format!("exec {rs}"),
+        // `exec` with operands: the utility is not in PATH / a pathname that does not
+        // exist / a file without execute permission / a directory / an executable
+        // that the (simulated) system refuses to execute
+        "execnf" => format!("exec no_such_command_c09 {rs}"),
+        "execnx" => format!("exec /tmp/nx/utility {rs}"),
+        "execne" => format!("exec /tmp/c arg {rs}"),
+        "execdir" => format!("exec /tmp/d {rs}"),
+        "execxf" => format!("exec true arg {rs}"),
         other => panic!("unknown kind {other}"),
     };
     format!("{line}\n{bodies}")
@@ -136,6 +144,7 @@ pub fn base_files() -> Vec<FileSpec> {
 pub fn run_script_with(
     script: &str,
     as_file: bool,
+    interactive: bool,
     tracked: &'static [&'static str],
     extra: &[(String, String)],
 ) -> ShellResult {
@@ -149,11 +158,16 @@ pub fn run_script_with(
     for (path, content) in extra {
         files.push(FileSpec::Regular { path: path.clone(), content: content.as_bytes().to_vec(), mode: 0o644 });
     }
-    let argv: Vec<String> = if as_file {
-        vec!["yash".into(), "/tmp/s".into()]
+    let mut argv: Vec<String> = vec!["yash".into()];
+    if interactive {
+        // an interactive shell without job control (no terminal here)
+        argv.extend(["-i".into(), "+m".into()]);
+    }
+    if as_file {
+        argv.push("/tmp/s".into());
     } else {
-        vec!["yash".into(), "-c".into(), script.into()]
-    };
+        argv.extend(["-c".into(), script.into()]);
+    }
     crate::runner::run(crate::runner::RunCfg { argv, files, cwd: "/tmp".into(), step_limit: 200_000, tracked })
 }
 
@@ -184,7 +198,7 @@ pub fn record(
             if !allow_exit {
                 return None;
             }
-            match probe::find(&r.events, "z") {
+            match probe::find(&r.events, "z").or_else(|| probe::find(&r.events, "zz")) {
                 Some(z) => (z.clone(), true),
                 // no observation at all after the command: panic / deadlock / step limit
                 None => (json!({"tab": [], "files": b["files"], "st": r.status}), true),
@@ -271,7 +285,8 @@ fn drift(sc: &Value, exp: &Value, rec: &Value) -> Vec<&'static str> {
     if wr_o != wr_e {
         d.push("wr");
     }
-    let diag = exp["failed"].as_i64().unwrap() != 0 || sc["kind"] == "notfound";
+    let diag = exp["failed"].as_i64().unwrap() != 0
+        || sc["kind"].as_str().is_some_and(|k| k == "notfound" || (k.starts_with("exec") && k != "exec"));
     if !diag {
         for f in exp["files"].as_array().unwrap() {
             if f["path"] == "se" || f["path"] == "s" {
@@ -293,7 +308,8 @@ fn drift(sc: &Value, exp: &Value, rec: &Value) -> Vec<&'static str> {
 pub fn run_scenario(id: i64, line: &Value) -> Value {
     let sc = &line["sc"];
     let script = script_of(sc);
-    let r = run_script_with(&script, sc["init"] == "int", TRACKED_P2, &[dot_file(sc["bst"].as_i64().unwrap())]);
+    let inter = sc["inter"].as_bool().unwrap_or(false);
+    let r = run_script_with(&script, sc["init"] == "int", inter, TRACKED_P2, &[dot_file(sc["bst"].as_i64().unwrap())]);
     let (mut rec, _) = record(&r, "b", "c", "a", true).unwrap_or_else(|| {
         // not even the `before` observation: report an empty record
         (
@@ -308,6 +324,7 @@ pub fn run_scenario(id: i64, line: &Value) -> Value {
     for k in ["kind", "nc", "lim", "bst", "list"] {
         m.insert(k.into(), sc[k].clone());
     }
+    m.insert("inter".into(), json!(inter));
     m.insert("flt".into(), json!(sc["fault"]["call"].as_str().is_some_and(|c| c != "none")));
     m.insert("stchk".into(), json!(true));
     m.insert("fchk".into(), json!(true));
